@@ -171,7 +171,7 @@ def bad_end(ilog):
     for x in (ilog or {}).get("extra", []):
         t = x.split()
         if t[:2] == ["monitor", "crashed"]: return "crashes (signal %s)" % t[2]
-        if t[:2] == ["monitor", "hung"]: return "hangs (a lock is never released, or livelock; no progress within 8 s)"
+        if t[:2] == ["monitor", "hung"]: return "hangs (a lock is never released, or livelock; no progress within 30 s)"
     return None
 
 
